@@ -32,7 +32,7 @@ type Case struct {
 func TestMain(m *testing.M) {
 	h.Setup("C06",
 		"F-re2 ASTs (literals, ., classes incl. POSIX names and \\pL / \\p{Greek}, ^ $ \\A \\z \\b \\B, alternation, greedy/lazy quantifiers with counts <= 50 over non-nullable bodies, capturing / (?P<name>) / non-capturing groups, flags i m s as (?i) and (?i:...)) printed in the dialect common to both engines, compiled by regexp.Compile and compat.Compile(p, regexp2.RE2) x ASCII, multi-byte and invalid-UTF-8 inputs of 0-12 runes x n in {-1,0,1,2,3,100}; one evaluation = one (pattern,input): all 22 methods of compat.Matcher (reader methods with strings.Reader and with a width-1 RuneError reader) must be reflect.DeepEqual between the two engines, nil-ness included; non-trivial = Go finds a match and the pattern has a choice point or the input is not ASCII, or FindAll returns >= 2 matches, or an empty match is adjacent to a previous match; distinct = hash of (pattern, input)",
-		map[string]float64{"multi-match": 0.15, "empty-match": 0.10, "invalid-utf8": 0.15, "unset-group": 0.03, "match": 0.4},
+		map[string]float64{"multi-match": 0.15, "empty-match": 0.10, "invalid-utf8": 0.15, "unset-group": 0.03, "match": 0.25},
 		"patterns accepted by one compiler and rejected by the other are counted as dialect-mismatch and not compared (the property quantifies over the common syntax)")
 	h.Ceiling("dialect-mismatch", 0.05)
 	h.Main(m)
